@@ -156,5 +156,70 @@ func VerifC01Hist() {
 			verifReach("above_limit")
 		}
 		verifAssert(okA || okB, "C01: verdicts equal the per-(quota,group) window counters (each ancestor bounded; refusal only when a quota on the chain is full)")
+		if verifParam("observe", 0) == 1 && verifBool(fmt.Sprintf("observe%d", i)) {
+			// the metrics observer (quotaResource.observeQuotaUsed) reads every quota's group counters
+			// between requests, possibly later in the window; reading must not change any later verdict
+			if od := verifInt(fmt.Sprintf("odt%d", i), 0, 3600*verifSec); od > 0 {
+				t += od
+				prev = t - base
+				verifSetNow(t)
+			}
+			for k := range qs {
+				qq, err := qr.GetQuota(qs[k].id)
+				verifAssert(err == nil, "quota found")
+				_ = qq.(interface{ GetQuotaGroupsCounters() map[string]int64 }).GetQuotaGroupsCounters()
+			}
+			verifReach("observed")
+		}
 	}
+}
+
+// VerifC01Interleaved: two transactions whose Inc and Allowed calls interleave (the limiter
+// processor calls Inc and then Allowed; two transactions handled at the same time can
+// interleave these) around a window boundary, after a first request filled the window.
+// A request whose Inc found the window full is refused, however the calls interleave.
+func VerifC01Interleaved() {
+	contextManager.VerifSetClock(verifClock{})
+	base := int64(1_700_000_000) * verifSec
+	verifSetNow(base)
+	W := verifInt("wsec", 1, 60)
+	cfg := QuotaConfig{ID: "q0", Filter: &streamConfig.Filter{Name: "f", URL: "api.example.com/*"},
+		Strategy: &StrategyConfig{FixedWindow: &FixedWindowConfig{QuotaLimit: QuotaLimit{Max: 1, Interval: W, IntervalUnit: "second"}}}}
+	qr, err := NewQuota(&SingleQuotaResourceData{Quota: &cfg})
+	verifAssert(err == nil, "quota builds")
+	q, err := qr.GetQuota("q0")
+	verifAssert(err == nil, "quota found")
+	r0 := &verifStream{id: "r0", hdr: map[string]string{}}
+	verifAssert(q.Inc(r0) == nil, "Inc")
+	ok0, _ := q.Allowed(r0)
+	verifAssert(ok0, "the first request of a window is admitted")
+	// A arrives in the same window (strictly inside it under both readings of the window start)
+	a := &verifStream{id: "a", hdr: map[string]string{}}
+	b := &verifStream{id: "b", hdr: map[string]string{}}
+	dA := verifInt("dA", 0, 60*verifSec)
+	verifAssume(dA < W*verifSec-verifSec) // inside r0's window whichever way its start is read
+	verifSetNow(base + dA)
+	verifAssert(q.Inc(a) == nil, "Inc")
+	// B arrives later, possibly after the window has ended
+	dB := verifInt("dB", 0, 120*verifSec)
+	verifAssume(dB >= dA)
+	verifSetNow(base + dB)
+	var okA, okB bool
+	switch verifChoose("order", 3) {
+	case 0: // Inc(B), Allowed(A), Allowed(B)
+		verifAssert(q.Inc(b) == nil, "Inc")
+		okA, _ = q.Allowed(a)
+		okB, _ = q.Allowed(b)
+	case 1: // Inc(B), Allowed(B), Allowed(A)
+		verifAssert(q.Inc(b) == nil, "Inc")
+		okB, _ = q.Allowed(b)
+		okA, _ = q.Allowed(a)
+	default: // Allowed(A), Inc(B), Allowed(B): the one-at-a-time order
+		okA, _ = q.Allowed(a)
+		verifAssert(q.Inc(b) == nil, "Inc")
+		okB, _ = q.Allowed(b)
+	}
+	_ = okB
+	verifReach("interleaved")
+	verifAssert(!okA, "C01: a request that arrived in a window that was already full was admitted (max 1: r0 and A in one window)")
 }
